@@ -428,10 +428,9 @@ theorem commit_error_on_invalid_name (ctx : Ctx κ) (strat : Strat) :
         · simp [hnm] at hbad
         · exact ⟨e, he', hbad⟩
       simp only [commitEntries, Bool.false_and, Bool.false_eq_true, if_false, hnm, Bool.not_true]
-      cases hcn : commitNode ctx strat n ((findChild old nm).getD ⟨nm, "", n.isDir⟩) s with
-      | error e => exact ⟨e, rfl⟩
-      | ok v =>
-        obtain ⟨n', c', s1⟩ := v
+      split
+      · exact ⟨_, rfl⟩
+      · next n' c' s1 _ =>
         obtain ⟨err, herr⟩ := commit_error_on_invalid_name ctx strat r hr old s1
         exact ⟨err, by simp [herr]⟩
     · exact ⟨.invalid, by simp [commitEntries, hnm]⟩
